@@ -449,7 +449,24 @@ impl FileCreationBuilder {
 
     /// Creates a new file
     pub fn create(self) -> Result<File, FileCreationError> {
-        let mut file = File::create(&self.config)?;
+        let file = File::create(&self.config)?;
+        // in this mode the file might have existed before and must never be removed
+        let file_was_created = self.config.creation_mode != Some(CreationMode::OpenOrCreate);
+        let file_path = self.config.file_path;
+
+        match self.setup_created_file(file) {
+            Ok(file) => Ok(file),
+            Err(e) => {
+                // a file that could not be set up completely must not stay in the file system
+                if file_was_created {
+                    let _ = File::remove(&file_path);
+                }
+                Err(e)
+            }
+        }
+    }
+
+    fn setup_created_file(self, mut file: File) -> Result<File, FileCreationError> {
         fail!(from self.config, when file.set_permission(self.config.permission), "Failed to set permissions.");
 
         if let Some(size) = self.config.truncate_size {
